@@ -1,4 +1,4 @@
-import BqVerif.Proofs.CrashRun
+import BqVerif.Proofs.CrashRes
 /-
 C14 - a crashed worker or manager unblocks every waiting client with an error.
 
@@ -135,6 +135,23 @@ theorem C14_second_crash {t : Topo} {s s' : State} (hs : Reach t s) {n : Nat} {t
   · right
     exact (step_wle h).gone e' x
 
+/-- **only complete results.**  `completed` records `(m, v)` exactly when a worker finishes the
+ROOT task of mailbox `m` with output `v` (`Label.wsend w (result m v)`: the one transition that
+creates a client-bound RESULT; a frame cut by a crash is the distinct message `broken`, on which
+every receiver raises).  In every reachable state - before, during and after any crashes -
+whatever `Compiler.result()` returned to client `c`, every RESULT in flight to `c`, and every
+result stored in a server mailbox is such a recorded complete output, of a mailbox that `c`'s
+own `submit` created. -/
+theorem C14_only_complete_results {t : Topo} {s : State} (hs : Reach t s) :
+    (∀ c m v, CEv.returned c (.result m v) ∈ s.clog →
+        (m, v) ∈ s.completed ∧ getOwner s.owner m = some c) ∧
+    (∀ c m v, Msg.result m v ∈ s.toClient c → (m, v) ∈ s.completed ∧ getOwner s.owner m = some c) ∧
+    (∀ m b v, (m, b) ∈ s.boxes → b.result = some v →
+        (m, v) ∈ s.completed ∧ getOwner s.owner m = some b.owner) := by
+  obtain ⟨ls, hr⟩ := hs
+  have hi := run_resInv ls init s resInv_init hr
+  exact ⟨hi.cl, hi.tc, fun m b v hb hv => ⟨(hi.bx m b hb).2 v hv, (hi.bx m b hb).1⟩⟩
+
 /-! ### non-vacuity: a server, a manager, two workers, one client -/
 
 def demoTopo : Topo := Topo.ofList [(0, 0), (0, 1), (1, 2), (1, 2)] false
@@ -197,6 +214,14 @@ example : demoDown.running 0 = false ∧ demoDown.cwait 0 = true := by decide
 example : (step demoTopo demoDown (.cwake 0)).map (·.clog) = some [.raised 0] := by decide
 -- C14_second_crash: a second crash is possible in `demoDown`
 example : (step demoTopo demoDown (.crash 1 false)).isSome = true := by decide
+
+-- C14_only_complete_results: a run in which the client does get its result (attached, one worker)
+def okRun : List Label :=
+  [.ccall 0 (.submit 0), .recvClient 0 [(.emp 1, .other 5)] false, .flush 0, .wrecv 1,
+   .wsend 1 (.result 0 7), .recvEmp 0 1 [] false, .ccall 0 (.request 0), .recvClient 0 [] false,
+   .flush 0, .cwake 0]
+example : (run (Topo.ofList [(0, 0), (0, 2)] true) init okRun).map (fun s => (s.clog, s.completed)) =
+    some ([.returned 0 (.result 0 7)], [(0, 7)]) := by decide
 
 /-! ### the code's defects, as kernel-checked witnesses -/
 
